@@ -131,6 +131,7 @@ class Obs:
         self.bad_ops = [l for l in self.lines if l.startswith('bad-op')]
         self.failed_asserts = [l for l in self.lines if l.startswith('assert-failed')]
         self.early_diff = [l for l in self.lines if l.startswith('early ') and ' differs ' in l]
+        self.linkage_values = [l for l in self.lines if l.startswith('linkage-values-disagree ')]
         self.early_checked = next((int(l.split('checked=')[1].split()[0]) for l in self.lines if l.startswith('early-constants ')), 0)
         for ln in self.lines:
             f = ln.split()
@@ -390,6 +391,11 @@ def run(tier):
             else:
                 res.violation('lookalike:' + w[1], 'an ordinary symbol named `%s` (typed int) is treated like the constant: get_decltype of it is the constant\'s '
                               'type, or does not have it as operand' % unhex(w[3]), '# %s\n' % ln + script)
+        for ln in o.linkage_values[:3]:
+            w = ln.split()
+            res.violation('linkage:values', 'as values, the linkages spelled `%s` and `%s` compare %s: linkages are equal exactly when spelled the same '
+                          '(the two standard ones are distinct, and a built-in type has the C++ one)' % (unhex(w[2].strip('`')), unhex(w[4].strip('`')), w[3]),
+                          '# %s\n' % ln + script)
         for ln in o.early_diff[:4]:
             what = ln.split()[1]
             res.violation('static-init:' + what, 'the constant `%s()` answered by a Lexicon that a client translation unit (linked before the library) uses during '
